@@ -5,6 +5,7 @@ import (
 	"bytes"
 	"fmt"
 	"reflect"
+	"sort"
 	"strings"
 
 	"ariga.io/atlas/schemahcl"
@@ -61,9 +62,9 @@ func (c TCase) hclType(spec *schemahcl.TypeSpec) *schemahcl.Type {
 }
 
 type TOutcome struct {
-	Rejected string
+	Rejected  string
 	Formatted string
-	HasParam bool
+	HasParam  bool
 	ZeroParam bool
 }
 
@@ -173,6 +174,45 @@ func describe(cs []schema.Change) string {
 	return strings.Join(out, ", ")
 }
 
+// effectiveCharsets lists, per table and string column, the character set and collation in force (own, else the parent's).
+func effectiveCharsets(s *schema.Schema) string {
+	get := func(attrs []schema.Attr, cs, co string) (string, string) {
+		for _, a := range attrs {
+			switch a := a.(type) {
+			case *schema.Charset:
+				cs = a.V
+			case *schema.Collation:
+				co = a.V
+			}
+		}
+		return cs, co
+	}
+	var out []string
+	scs, sco := get(s.Attrs, "", "")
+	for _, t := range s.Tables {
+		tcs, tco := get(t.Attrs, scs, sco)
+		out = append(out, fmt.Sprintf("%s=%s/%s", t.Name, tcs, tco))
+		for _, c := range t.Columns {
+			if _, ok := c.Type.Type.(*schema.StringType); !ok {
+				continue
+			}
+			own := false
+			for _, a := range c.Attrs {
+				switch a.(type) {
+				case *schema.Charset, *schema.Collation:
+					own = true
+				}
+			}
+			if own {
+				ccs, cco := get(c.Attrs, "", "")
+				out = append(out, fmt.Sprintf("%s.%s=%s/%s", t.Name, c.Name, ccs, cco))
+			}
+		}
+	}
+	sort.Strings(out)
+	return strings.Join(out, " ")
+}
+
 func checkSchema(c SCase) error {
 	s0, err := gm.Build(c.Dialect, c.S)
 	if err != nil {
@@ -188,6 +228,13 @@ func checkSchema(c SCase) error {
 	}
 	if len(r1.Schemas) != 1 {
 		return fmt.Errorf("%s: evaluated HCL has %d schemas", c.Dialect, len(r1.Schemas))
+	}
+	// the differ cannot see a character set that was lost together with every ancestor's: compare the effective
+	// (stated or inherited) character set and collation of every table and column directly
+	if c.Dialect == "mysql" {
+		if a, b := effectiveCharsets(s0), effectiveCharsets(r1.Schemas[0]); a != b {
+			return fmt.Errorf("mysql: character sets / collations differ after the HCL round trip\n original:  %s\n evaluated: %s\nHCL:\n%s", a, b, h1)
+		}
 	}
 	differ := gm.Differ(c.Dialect)
 	fresh := func() *schema.Schema { s, _ := gm.Build(c.Dialect, c.S); return s }
